@@ -14,17 +14,20 @@ import ast
 
 from ..core.flow import call_name, calls_in, is_name, propagate_unverified, node_calls
 from ..core.loader import AnalysisError, short, own_nodes, norm, canon, function_locals
-from ..core.minieval import Unsupported, Raised
+from ..core.minieval import Evaluator, Unsupported, Raised
 from ..core.report import where
 from ..specs.evm import COMMUTATIVE
 
 TECHNIQUE = ("injectivity of the abstractly evaluated opcode->functor map; table comparison of the commutative set; "
              "CFG must-pass-through analysis of the accepting returns of the comparison functions; effect rule (no raise)")
-LEVEL_TEXT = ("Decides necessary structural conditions of checker soundness: the front-end both blocks are re-specified "
-              "with cannot map two opcodes to one operator; operands are compared in order unless the operation is in "
-              "the EVM-commutative set; an accepting answer is reachable only after source stack, target stack, both "
-              "dependence lists and the store/load records were compared; and the comparison cannot raise by itself. "
-              "It does not decide that equal specifications imply indistinguishable blocks (that is C02/C03).")
+LEVEL_TEXT = ('Decides necessary structural conditions of checker soundness: the front-end both blocks are re-specified '
+              'with cannot map two opcodes to one operator; operands are compared in order unless the operation is in the '
+              'EVM-commutative set; an accepting answer is reachable only after source stack, target stack, both dependence '
+              'lists and the store/load records were compared; and the comparison cannot raise by itself. Bounded, by '
+              'abstract evaluation: are_equals is sensitive to every component of small specifications (C05.i: 170+ single- '
+              'component changes incl. reversed dependences among several same-opcode accesses), and the block comparison '
+              'looks at every part of a block incl. the split instructions (C05.j). It does not decide that equal '
+              'specifications imply indistinguishable blocks (that is C02/C03).')
 EXPLANATION = ("are_equals is analysed on its CFG: every return whose first component may be True must be dominated by "
                "the rejecting tests of all five component comparisons. compare_variables: disasm, value, then inputs; the "
                "swapped retry is control dependent on elem_origin['commutative'].")
@@ -402,6 +405,12 @@ def rule_h(ctx, out):
         if "MSTORE" in acc and "MSTORE8" not in acc:
             out.bad(f"store-predicate-misses-MSTORE8:{f.name}:{norm(expr)[:50]}", f"in {f.name} the predicate `{short(expr, 70)}` selects MSTORE records but not "
                     f"MSTORE8 records: byte stores are left out of the comparison", where(f, expr), {"accepts": sorted(acc)})
+        elif acc & {"SSTORE", "SLOAD"}:
+            # the comparison works per location: the records of the memory dependences are looked up among the memory accesses (and
+            # the hashes), those of the storage dependences among the storage accesses.  A filter that takes both finds, for a
+            # dependence that mentions an access of the other location, a record where the comparison used to stop
+            out.bad(f"location-filter-mixes-memory-and-storage:{f.name}", f"in {f.name} the predicate `{short(expr, 70)}` selects memory and storage accesses "
+                    f"alike ({sorted(acc)}): the per-location comparison of dependences pairs accesses of different locations", where(f, expr), {"accepts": sorted(acc)})
         else:
             out.ok({"function": f.name, "predicate": short(expr, 60), "accepts": sorted(acc)})
     if n < 4:
@@ -647,7 +656,51 @@ def rule_j(ctx, out):
                 out.bad("block-comparison-renames-block", "the comparison leaves a block under another name", where(f))
 
 
+def rule_k(ctx, out):
+    """The adapter of the external checker answers "true" only for a pair it has rendered and the checker has seen.  forves_format
+    gives the rendering, '' when there is nothing to compare, and None when the pair cannot be rendered (its own handler swallows the
+    error).  In compare_forves every `return "true"` is either reached after the checker was run, or guarded by a test on the
+    rendering that holds for '' only — evaluated for the three kinds of value; a truthiness test also holds for None."""
+    f = ctx.func("verification.forves_verification.compare_forves")
+    cfg = ctx.cfg(f)
+    runs = [n for n in cfg.nodes if n.kind == "stmt" and any(call_name(c) in ("run_command", "run", "check_output", "Popen") for c in node_calls(n))]
+    rendered = {t.id for n in own_nodes(f.node) if isinstance(n, ast.Assign) and isinstance(n.value, ast.Call) and call_name(n.value) == "forves_format"
+                for t in n.targets if isinstance(t, ast.Name)}
+    if not runs or not rendered:
+        raise AnalysisError("compare_forves: the call of the external checker or the rendering of the pair was not found")
+    n = 0
+    for r in [x for x in cfg.nodes if x.kind == "stmt" and isinstance(x.ast, ast.Return) and isinstance(x.ast.value, ast.Constant) and x.ast.value.value == "true"]:
+        n += 1
+        if any(cfg.dominates(c, r) for c in runs):
+            out.ok({"return_true": f"line {r.ast.lineno}", "after": "the external checker ran"})
+            continue
+        guard = getattr(r.ast, "_parent", None)
+        if not (isinstance(guard, ast.If) and r.ast in guard.body and {x.id for x in ast.walk(guard.test) if isinstance(x, ast.Name)} <= rendered):
+            out.bad("forves-true-without-checker", f"compare_forves returns \"true\" at line {r.ast.lineno} without the external checker having run and not under a test "
+                    f"on the rendering alone", where(f, r.ast))
+            continue
+        var = sorted(rendered)[0]
+        fn = ast.FunctionDef(name="_g", args=ast.arguments(posonlyargs=[], args=[ast.arg(arg=v) for v in sorted(rendered)], kwonlyargs=[], kw_defaults=[], defaults=[]),
+                             body=[ast.Return(value=guard.test)], decorator_list=[])
+        verdicts = {}
+        for label, val in (("not renderable (None)", None), ("nothing to compare ('')", ""), ("a rendering", "PUSH1 0x1\nPUSH1 0x1")):
+            try:
+                verdicts[label] = bool(Evaluator(fn).call(*[val for _ in sorted(rendered)]))
+            except (Unsupported, Raised) as e:
+                raise AnalysisError(f"compare_forves: guard `{short(guard.test)}` cannot be evaluated: {e}")
+        if verdicts == {"not renderable (None)": False, "nothing to compare ('')": True, "a rendering": False}:
+            out.ok({"return_true": f"line {r.ast.lineno}", "guard": short(guard.test), "holds_for": "'' only"})
+        else:
+            also = [k_ for k_, v_ in verdicts.items() if v_ and "''" not in k_]
+            out.bad("forves-true-for-unrendered-pair", f"compare_forves answers \"true\" under `{short(guard.test)}`, which also holds for {also}: a pair that could not be "
+                    f"rendered, and that the external checker never saw, is reported as verified", where(f, guard))
+    # (the answers after the checker ran may come from a table; the early answer for "nothing to compare" is the one that matters)
+    if n < 1:
+        raise AnalysisError("compare_forves: no `return \"true\"` found")
+
+
 RULES = [
+    ("C05.k", "the external-checker adapter says true only for rendered pairs", 1, rule_k),
     ("C05.j", "the block comparison looks at every part of a block (split instructions included)", 18, rule_j),
     ("C05.i", "the comparison is sensitive to every component of a specification", 100, rule_i),
     ("C05.h", "byte stores take part in the comparison", 4, rule_h),
